@@ -366,3 +366,49 @@ OP("cbor_string_set_handle", ["H_STRING_SET_HANDLE"], replace=["cbor_isa_string"
 OP("cbor_tag_set_item", ["H_TAG_SET_ITEM"], replace=["cbor_isa_tag", "cbor_incref"])
 OP("cbor_tag_item", ["H_TAG_ITEM"], replace=["cbor_isa_tag", "cbor_incref"])
 OP("cbor_build_tag", ["H_BUILD_TAG"], replace=["cbor_new_tag", "cbor_tag_set_item"], must=4, covers=2)
+
+# ------------------------------------------------------------------------------------------------
+# L2 containers (C12 list view, C04 deltas, C06 atomicity, C20 growth arithmetic, C13 traffic)
+CONT_CONTRACTS = ["contracts/items_ro.h", "contracts/items_ops.h", "contracts/memory_utils.h", "contracts/items_cont.h",
+                  "contracts/refcount.h", "contracts/arrays2.h"]
+CONT_PROPS = {"C12": FUNC + FRAME, "C04": FUNC + FRAME, "C06": FUNC + FRAME, "C13": FUNC, "C20": FUNC, "C01": SAFETY, "C17": FRAME}
+
+
+def CONT(fn, defines, replace=(), must=1, covers=1, **kw):
+    P(name="cont_" + fn.replace("cbor_", "").lstrip("_"), props=dict(CONT_PROPS), lib=ITEMLIB, stubs=ITEM_STUBS + ["stubs/decref_ghost.c"],
+      contracts=CONT_CONTRACTS, harness="harness/ops.c", defines=defines, enforce=fn, replace=list(replace),
+      must_exist=[r"%s\.postcondition\.%d" % (fn, must)], min_covers=covers, **kw)
+
+
+CONT("cbor_new_indefinite_array", ["H_CTOR", "CALL=cbor_new_indefinite_array()"], must=4, covers=2, cost=3)
+CONT("cbor_array_push", ["H_ARRAY_PUSH"], replace=["cbor_isa_array", "cbor_array_is_definite", "_cbor_safe_to_multiply", "cbor_incref"],
+     must=7, covers=7, cost=60, timeout=900)
+CONT("cbor_array_get", ["H_ARRAY_GET"], replace=["cbor_incref"], must=2, covers=3, cost=10, replay="array_get")
+CONT("cbor_array_replace", ["H_ARRAY_REPLACE"], replace=["cbor_incref", "cbor_intermediate_decref"], must=4, covers=3, cost=20)
+CONT("cbor_array_set", ["H_ARRAY_SET"], replace=["cbor_array_push", "cbor_array_replace"], must=5, covers=3, cost=20)
+CONT("cbor_new_indefinite_map", ["H_CTOR", "CALL=cbor_new_indefinite_map()"], must=4, covers=2, cost=3)
+CONT("_cbor_map_add_key", ["H_MAP_ADD_KEY"], replace=["cbor_isa_map", "cbor_map_is_definite", "cbor_map_handle", "_cbor_safe_to_multiply", "cbor_incref"],
+     must=7, covers=7, cost=60, timeout=900)
+CONT("_cbor_map_add_value", ["H_MAP_ADD_VALUE"], replace=["cbor_isa_map", "cbor_map_handle", "cbor_incref"], must=2, covers=2, cost=30)
+CONT("cbor_map_add", ["H_MAP_ADD"], replace=["cbor_isa_map", "_cbor_map_add_key", "_cbor_map_add_value"], must=6, covers=7, cost=60, timeout=900)
+CONT("cbor_bytestring_add_chunk", ["H_ADD_CHUNK", "MK=mk_indef_bytestring", "MKCHUNK=mk_def_bytestring", "ADD_CHUNK=cbor_bytestring_add_chunk"],
+     replace=["cbor_isa_bytestring", "cbor_bytestring_is_indefinite", "cbor_bytestring_is_definite", "_cbor_safe_to_multiply", "cbor_incref"],
+     must=6, covers=5, cost=60, timeout=900)
+CONT("cbor_string_add_chunk", ["H_ADD_CHUNK", "MK=mk_indef_string", "MKCHUNK=mk_def_string", "ADD_CHUNK=cbor_string_add_chunk"],
+     replace=["cbor_isa_string", "cbor_string_is_indefinite", "_cbor_safe_to_multiply", "cbor_incref"],
+     must=6, covers=5, cost=60, timeout=900)
+
+# cbor_decref: one step proof per node kind, children through the induction-hypothesis twin
+DECREF_CONTRACTS = CONT_CONTRACTS
+for kind, loops in (("UINT", False), ("NEGINT", False), ("FLOAT_CTRL", False), ("DEF_BYTESTRING", False), ("DEF_STRING", False),
+                    ("INDEF_BYTESTRING", True), ("INDEF_STRING", True), ("ARRAY", True), ("MAP", True), ("TAG", False)):
+    P(name="decref_" + kind.lower(), props={"C04": FUNC + FRAME + ["loop"], "C13": [], "C01": SAFETY, "C06": [], "C17": FRAME},
+      lib=ITEMLIB, stubs=ITEM_STUBS + ["stubs/decref_ghost.c"], contracts=DECREF_CONTRACTS, harness="harness/decref.c",
+      defines={"UINT": ["KIND_INT", "VERIF_INT_TYPE=CBOR_TYPE_UINT"], "NEGINT": ["KIND_INT", "VERIF_INT_TYPE=CBOR_TYPE_NEGINT"]}.get(kind, ["KIND_" + kind]) + ["VERIF_FIXED_NODES"],
+      enforce="cbor_decref", twins={"cbor_decref": "cbor_decref__child"},
+      # the one-line getters are verified inlined here: replacing them by contract turns the constant node type /
+      # flavour into a nondeterministic value and makes symex explore every switch arm of cbor_decref
+      replace=["cbor_decref__child"],
+      loops="loops/decref.json", loop_fingerprint={"cbor_decref": 4},
+      must_exist=[r"cbor_decref\.postcondition\.4"] + ([r"cbor_decref\.loop_invariant_step\.\d+"] if loops else []),
+      min_covers=2, cost=60, timeout=900, object_bits=10)
